@@ -48,10 +48,10 @@ class DefinitionDict:
             if isinstance(def_dict, (DefinitionDict, dict)):
                 self._add_definitions_from_dict(def_dict)
             elif isinstance(def_dict, str) and hed_schema:
-                self.check_for_definitions(HedString(def_dict, hed_schema))
+                self._issues += self.check_for_definitions(HedString(def_dict, hed_schema))
             elif isinstance(def_dict, list) and hed_schema:
                 for definition in def_dict:
-                    self.check_for_definitions(HedString(definition, hed_schema))
+                    self._issues += self.check_for_definitions(HedString(definition, hed_schema))
             else:
                 raise TypeError(f"Invalid type '{type(def_dict)}' passed to DefinitionDict")
 
